@@ -67,6 +67,60 @@ def _conversion_of(f, k):
     return found
 
 
+def _shared_array_conversion(f, dbl):
+    """the three parameters are only stored into slots of one local array, and every load from that array feeds the same single conversion site:
+    (callee, site) or None"""
+    arr = set()
+    for k in dbl:
+        if _conversion_of(f, k):
+            return None
+        us = [u for u in f.users(("a", k)) if u.op == "store" and list(u.ops[0][:2]) == ["a", k]]
+        if len(us) != 1:
+            return None
+        addr = us[0].ops[1]
+        while addr[0] == "i" and f.insts[addr[1]].op in ("getelementptr", "bitcast"):
+            addr = f.insts[addr[1]].ops[0]
+        if addr[0] != "i" or f.insts[addr[1]].op != "alloca":
+            return None
+        arr.add(addr[1])
+    if len(arr) != 1:
+        return None
+    a = next(iter(arr))
+    # every use of the array: address computations, the three stores, loads, lifetime markers / memset
+    loads, todo, seen = [], [("i", a)], set()
+    while todo:
+        key = todo.pop()
+        if key in seen:
+            continue
+        seen.add(key)
+        for u in f.users(key):
+            if u.op in ("getelementptr", "bitcast"):
+                todo.append(("i", u.id))
+            elif u.op == "load":
+                loads.append(u)
+            elif u.op == "store" and list(u.ops[1][:2]) == list(key) and u.ops[0][0] == "a":
+                continue
+            elif u.op == "call" and u.callee and (u.callee.startswith("llvm.lifetime") or u.callee.startswith("llvm.dbg")):
+                continue
+            else:
+                return None
+    if not loads:
+        return None
+    sites = set()
+    for ld in loads:
+        for u in f.users(("i", ld.id)):
+            if u.op == "call" and u.callee and (u.callee in NEAREST or u.callee in DIRECTED):
+                sites.add((u.callee, u.id))
+            elif u.op in ("fptosi", "fptoui"):
+                sites.add(("bare", u.id))
+            else:
+                return None
+    if len(sites) != 1:
+        return None
+    callee, sid = next(iter(sites))
+    return callee, f.insts[sid]
+
+
 def check_round3(ctx, m, cfg):
     reach = _reachable(m, ["gridPathCells"])
     n = 0
@@ -86,6 +140,14 @@ def check_round3(ctx, m, cfg):
             else:
                 kinds[k] = cv[0]
         names = {k: f.args[k]["name"] for k in dbl}
+        if all(c is None for c, _ in kinds.values()):
+            shared = _shared_array_conversion(f, dbl)
+            if shared is not None:
+                callee, site = shared
+                inst["conversions"] = {names[k]: callee + " (one conversion site over a local array holding the three coordinates)" for k in dbl}
+                if callee in NEAREST:
+                    ctx.ok(RULE, inst, "%s stores its three cube coordinates into one local array and converts every element at one site (%s): they are rounded alike" % (f.name, callee))
+                    continue
         if any(c is None for c, _ in kinds.values()):
             bad = [names[k] for k in dbl if kinds[k][0] is None]
             ctx.broken(RULE, "round3 %s: parameter(s) %s do not reach exactly one recognised float-to-integer conversion" % (f.name, ", ".join(bad)))
